@@ -27,9 +27,11 @@
       first queries and every later `query` keep the order invariant `HS.OInv` = DESIGN B.2 (I1), (I4),
       under precondition (I5) (C03_HS_order_step); C03_HS_sorted_partial is the same from a hypothesis
       on the state produced by the prologue (any threshold).
+    * for complete runs (the generator has stopped; it does: C02_HS_full) every strictly more probable
+      member was yielded before (C03_HS_more_probable_before).
   NOT proved: the bucket-search version of the order invariant, heap search with a positive
-  threshold from scratch, and prefix completeness ("every strictly more probable program was
-  yielded before" — needs completeness, C02); checked on every generated case (exact Fractions).
+  threshold from scratch, and prefix completeness for a proper prefix of the run; checked on every
+  generated case (exact Fractions).
 -/
 import PS.Model.Enum.HeapSearch
 import PS.Proofs.Enum.Heapq
@@ -41,6 +43,7 @@ import PS.Proofs.Enum.HSHeaps
 import PS.Proofs.Enum.HSOrder
 import PS.Proofs.Enum.HSOrderCheck
 import PS.Proofs.Enum.HSSorted
+import PS.Proofs.Enum.HSPrologueTotal
 namespace PS.C03HS
 open PS PS.G PS.HS
 
@@ -217,6 +220,26 @@ theorem C03_HS_sorted (E : Env S Unit Rat) (rank : NT S Unit → Nat) (H : OrdHy
     (h : take E fuel k (Gen.new E.G) [] = some (g', out, b)) :
     out.Pairwise (fun p q => G.prob E.G E.W q E.G.start ≤ G.prob E.G E.W p E.G.start) :=
   take_sorted E rank H HI hthr hk hf fuel k g' out b h
+
+/-- **every strictly more probable program was yielded before** (complete runs): when the generator
+    has stopped, a member `p` of the grammar that is strictly more probable than a yielded `q` occurs
+    before `q` in the output.  (For a proper prefix of the run the statement is not proved.) -/
+theorem C03_HS_more_probable_before (E : Env S Unit Rat) (rank : NT S Unit → Nat) (C : CompHyp E rank)
+    (fuel k : Nat) (g' : Gen S Unit Rat) (l1 l2 : List Prog) (q p : Prog)
+    (h : take E fuel k (Gen.new E.G) [] = some (g', l1 ++ q :: l2, true))
+    (hp : contains E.G p = true) (hlt : G.prob E.G E.W q E.G.start < G.prob E.G E.W p E.G.start) : p ∈ l1 := by
+  have hsorted := C03_HS_sorted E rank C.ord C.init C.thr C.keys C.nofilter fuel k g' _ true h
+  have hmem : p ∈ l1 ++ q :: l2 := by
+    rw [contains_eq_gen] at hp
+    exact take_complete E rank C fuel k g' _ h p hp
+  rcases List.mem_append.mp hmem with h1 | h2
+  · exact h1
+  · exfalso
+    have hpw := (List.pairwise_append.mp hsorted).2.1
+    rcases List.mem_cons.mp h2 with rfl | h3
+    · exact absurd hlt (Rat.lt_irrefl)
+    · have := (List.pairwise_cons.mp hpw).1 p h3
+      exact absurd hlt (Rat.not_lt.mpr this)
 
 /-- the same from a hypothesis on the state produced by the prologue only (any threshold; kept for
     grammars outside `InitHyp`): the yielded probabilities are non-increasing PROVIDED the state produced
